@@ -390,8 +390,10 @@ func decodeByteArray(s *Stream, val reflect.Value) error {
 		if vlen > 1 {
 			return &decodeError{msg: "input string too short", typ: val.Type()}
 		}
-		bv, _ := s.Uint()
-		val.Index(0).SetUint(bv)
+		// the value is carried in the type tag; s.Uint would reject a zero byte
+		// as a non-canonical integer and leave the stream positioned on it
+		val.Index(0).SetUint(uint64(s.byteval))
+		s.kind = -1 // rearm Kind
 	case String:
 		if uint64(vlen) < size {
 			return &decodeError{msg: "input string too long", typ: val.Type()}
